@@ -126,7 +126,7 @@ theorem normalize_sem_fg {ext : Bool} {d : List (DomVar (Ext K))} {S : String 
       by_cases hc : cmpK cmp' x k = true
       路 simp [hc] at h; subst h; simp only [NormSem, hcmp, hc]
       路 simp [hc] at h; subst h; simp only [NormSem, hcmp]; simpa using hc
-    路 simp only [hp, ar_zero, ar_one, cmpHolds_fin] at h
+    路 simp only [hp, ar_zero, ar_one, cmpHolds_fin, Exp.mayBeUndefined, Bool.false_eq_true, if_false] at h
       rw [eval_var] at hx
       simp only [Option.some.injEq] at hx
       have h01 := hB n hs hbn
